@@ -374,8 +374,8 @@ fn c03_false_twin() {
 // ------------------------------------------------------------------------------------------ C19
 
 // @h props=C19,C03:t tier=quick family=M mem=18 timeout=2400 stubs=ModelBRS,utils::stable_partition_of_2->fixed_array_reference(c17) role=wt.paths.u8
-// @bound WaveletTree<u8, ModelBRS, false>: length 3 (s[last] = 255): new / From<Vec> / collect give equal values, Clone is equal, a sequence differing in one symbolic position gives an unequal value
-// @funcs WaveletTree::new, WaveletTree::from<Vec>, WaveletTree::from_iter, WaveletTree::clone, WaveletTree::eq
+// @bound WaveletTree<u8, ModelBRS, false>: length 3 (s[last] = 255): new and From<Vec> give equal values (collect and Clone: c19_wt_paths2; inequality: c19_wt_widths on concrete pairs, symbolic in the thorough tier)
+// @funcs WaveletTree::new, WaveletTree::from<Vec>, WaveletTree::eq
 #[kani::proof]
 #[kani::unwind(66)] // derived == on Vec<usize> is a memcmp over 8 levels x 8 bytes
 #[kani::stub(crate::utils::stable_partition_of_2, part2_stub)]
@@ -385,7 +385,21 @@ fn c19_wt_paths_u8_n3() {
     let t1 = Tree::<u8>::new(&mut w[..]);
     let t2 = Tree::<u8>::from(s.to_vec());
     assert!(t1 == t2);
-    // different sequence => different value
+    kani::cover!(s[0] != s[1], "distinct symbols");
+    core::mem::forget(t1);
+    core::mem::forget(t2);
+}
+
+// @h props=C19:t tier=thorough family=M optional=yes mem=40 timeout=3600 stubs=ModelBRS,utils::stable_partition_of_2->fixed_array_reference(c17) role=wt.paths.neq
+// @bound WaveletTree<u8, ModelBRS, false>: length 3: a sequence differing in one symbolic position gives an unequal value (quick tier: concrete pairs in c19_wt_widths; this one exceeded 21 GB)
+// @funcs WaveletTree::new, WaveletTree::eq
+#[kani::proof]
+#[kani::unwind(66)]
+#[kani::stub(crate::utils::stable_partition_of_2, part2_stub)]
+fn c19_wt_paths_neq_u8_n3() {
+    let s = any_seq!(u8, 3, 2);
+    let mut w = s;
+    let t1 = Tree::<u8>::new(&mut w[..]);
     let p: usize = kani::any();
     kani::assume(p < 2);
     let v: u8 = kani::any();
@@ -396,7 +410,6 @@ fn c19_wt_paths_u8_n3() {
     assert!(t4 != t1);
     kani::cover!(p == 1, "difference in the middle");
     core::mem::forget(t1);
-    core::mem::forget(t2);
     core::mem::forget(t4);
 }
 
